@@ -13,6 +13,7 @@ from mc.core import require, Violation
 
 PROPERTY = 'C17'
 LEVEL = 'model_checking'
+_EVAL_CACHE = {}
 
 
 def dom_population(specs, seed=0):
@@ -95,9 +96,28 @@ def apfl(case):
   lr, coef, depth = case['lr'], case['coef'], case['depth']
   alg, init = systems.build('apfl', coef=coef, lr_c=lr, loss='rng')
   pop = algos.population([2, 3, 0, 4], case.get('seed', 0))
-  cohorts = {'A': [0], 'B': [1], 'AB': [0, 1], 'AC': [0, 2], 'D': [3], 'C': [2]}
+  cohorts = {'A': [0], 'B': [1], 'AB': [0, 1], 'AC': [0, 2], 'D': [3], 'C': [2], 'EVAL': None}
   stats = {'states': 1, 'transitions': 0}
   outs = set()
+  from fedjax.algorithms import apfl as apfl_mod
+  import fedjax
+  import jax.numpy as jnp
+  if 'apfl_eval' not in _EVAL_CACHE:
+    model = fedjax.Model(init=lambda rng: algos.jparams(), apply_for_train=lambda p, b, r=None: b['x'] @ p['w'] + p['b'],
+                         apply_for_eval=lambda p, b: jnp.stack([b['x'] @ p['w'] + p['b'], -(b['x'] @ p['w'] + p['b'])], -1),
+                         train_loss=lambda b, o: (o - b['y']) ** 2, eval_metrics={'acc': fedjax.metrics.Accuracy()})
+    _EVAL_CACHE['apfl_eval'] = apfl_mod.eval_adaptive_personalized_federated_learning(
+        model, fedjax.PaddedBatchHParams(batch_size=2))
+  eval_fn = _EVAL_CACHE['apfl_eval']
+
+  def eval_pop():
+    # personalised evaluation over the WHOLE population (participants and clients never trained)
+    out = []
+    for cid, ds, _ in pop:
+      ex = dict(ds.raw_examples)
+      ex['y'] = (np.arange(len(ds)) % 2).astype(np.int32)
+      out.append((cid, fedjax.ClientDataset(ex)))
+    return out
   require(len(init.client_states) == 0, 'initial APFL state already stores client states', case=case)
 
   def rec(hist, state, seen):
@@ -108,6 +128,18 @@ def apfl(case):
       if 'history' in case and case['history'][:len(h2)] != h2:
         continue
       nc = dict(case, history=h2)
+      if idxs is None:
+        if hist and hist[-1] == 'EVAL':
+          continue
+        snap = algos.tree_np(state)
+        res = list(eval_fn(state, eval_pop()))
+        require(len(res) == len(pop), 'APFL evaluation did not return one result per client', case=nc)
+        require(set(state.client_states) == seen, 'evaluating clients that never trained added entries to the client table',
+                sorted(map(repr, seen)), sorted(map(repr, state.client_states)), case=nc)
+        require(algos.trees_equal(state, snap, 0, 0), 'APFL evaluation changed the server state', case=nc)
+        stats['transitions'] += 1
+        rec(h2, state, seen)
+        continue
       new, diag = alg.apply(state, [pop[i] for i in idxs])
       seen2 = seen | {pop[i][0] for i in idxs}
       require(set(new.client_states) == seen2, 'client table keys differ from the set of clients that have participated',
